@@ -36,6 +36,35 @@ class Facts(object):
         f = Facts(self.kinds, self.none, self.truths, self.lens, self.values, self.raising, self.types, self.iters)
         return f
 
+    def alias(self, new, old):
+        """``new = old``: everything the scenario says about ``old`` holds for ``new``"""
+        self.forget(new)
+        if old in self.kinds:
+            self.kinds[new] = set(self.kinds[old])
+        if old in self.none:
+            self.none.add(new)
+
+        def ren(text):
+            try:
+                tree = ast.parse(text, mode="eval")
+            except SyntaxError:
+                return None
+            hit = False
+            for n in ast.walk(tree):
+                if isinstance(n, ast.Name) and n.id == old:
+                    n.id = new
+                    hit = True
+            return unparse(tree.body) if hit else None
+        for d in (self.truths, self.lens, self.values, self.iters):
+            for k in list(d):
+                k2 = ren(k)
+                if k2 is not None and k2 not in d:
+                    d[k2] = d[k]
+        for k in list(self.raising):
+            k2 = ren(k)
+            if k2 is not None:
+                self.raising.add(k2)
+
     def forget(self, name):
         """the name was rebound to something the scenario does not describe"""
         self.kinds.pop(name, None)
@@ -179,6 +208,16 @@ def holds(test, F):
     return None
 
 
+def _unalias(e, aliases):
+    if not aliases:
+        return e
+    e = ast.parse(unparse(e), mode="eval").body
+    for n in ast.walk(e):
+        if isinstance(n, ast.Name) and n.id in aliases:
+            n.id = aliases[n.id]
+    return e
+
+
 def _value_of(e, F):
     if isinstance(e, ast.Constant) and isinstance(e.value, (int, float, str)) and not isinstance(e.value, bool):
         return e.value
@@ -214,9 +253,26 @@ class Walk(object):
         self.end = "fall"       # fall | return | raise
         self.last = None        # the Return / Raise node (resolved copy)
         self.raised_in_guard = None
+        self.aliases = {}       # copy -> original name
 
     def texts(self):
-        return [unparse(s) for s in self.ran]
+        """the statements that ran, as source; plain copies between names (``a = b`` of an in-lined helper's parameter)
+        are undone first, so that the text speaks about the names of the scenario"""
+        out = []
+        for s in self.ran:
+            if self.aliases:
+                s = ast.parse(unparse(s)).body[0]
+                for n in ast.walk(s):
+                    if isinstance(n, ast.Name):
+                        seen = set()
+                        while n.id in self.aliases and n.id not in seen:
+                            seen.add(n.id)
+                            n.id = self.aliases[n.id]
+                if isinstance(s, ast.Assign) and len(s.targets) == 1 and isinstance(s.targets[0], ast.Name) \
+                        and isinstance(s.value, ast.Name) and s.targets[0].id == s.value.id:
+                    continue
+            out.append(unparse(s))
+        return out
 
 
 def walk(stmts, F, where="?", rebind=None, strict=True):
@@ -271,8 +327,21 @@ def walk(stmts, F, where="?", rebind=None, strict=True):
                             known = _value_of(cp.value, F) if isinstance(t, ast.Name) else None
                             truth = holds(cp.value, F) if isinstance(t, ast.Name) and known is None and isinstance(
                                 cp.value, (ast.Compare, ast.BoolOp, ast.UnaryOp, ast.Call)) else None
+                            copy_of = cp.value.id if isinstance(t, ast.Name) and isinstance(cp.value, ast.Name) else None
+                            if copy_of is not None and (copy_of in F.kinds or copy_of in F.none or copy_of in F.lens
+                                                        or copy_of in F.values or copy_of in W.aliases):
+                                base = W.aliases.get(copy_of, copy_of)
+                                F.alias(n.id, copy_of)
+                                if n.id != base:
+                                    W.aliases[n.id] = base
+                                else:
+                                    W.aliases.pop(n.id, None)
+                                continue
                             if rebind is not None and isinstance(t, ast.Name):
-                                rebind(n.id, cp.value, F)
+                                rebind(W.aliases.get(n.id, n.id), _unalias(cp.value, W.aliases), F)
+                                if n.id in W.aliases:
+                                    # the hook spoke about the original name: carry what it said over to the copy
+                                    F.alias(n.id, W.aliases[n.id])
                             else:
                                 F.forget(n.id)
                             if known is not None and n.id not in F.values and n.id not in F.kinds:
